@@ -9,7 +9,8 @@ job = {
                                             # terminal/configuration.py gives) instead of the normalised <tmp>/out
   "init": [[relpath, null | text], ...],    # initial content of the output directory (null = directory), created in order
   "copy_src": null | [[relpath, null|text], ...],   # content of <project>/cp  (the folder `#copy "cp"` refers to)
-  "builds": [ {"src": str, "header": null|str,
+  "builds": [ {"src": str, "header": null|str,   # "{OUTSIDE}" in the header = absolute path of a folder NEXT TO the output directory
+                                            # (holds keep.txt, pack/...; result["outside_changed"] says whether the build touched it)
                "touch": null|[[relpath, null|text], ...],   # files the user puts into (or overwrites in) the output directory before this build
                "remove": null|[relpath, ...],               # files / folders the user deletes from the output directory before this build
                "pack_format": null|str,                     # pack format of THIS build (default: the job's)
@@ -310,11 +311,14 @@ def run_job(job):
         if job.get("copy_src") is not None:
             (proj / "cp").mkdir()
             make_tree(proj / "cp", job["copy_src"])
+        outside = tmp / "outside"          # a folder next to the output directory: nothing JMC does may reach it
+        make_tree(outside, [["keep.txt", "not yours"], ["pack/data/x/function/a.mcfunction", "say a"]])
         for b in job["builds"]:
+            proj.mkdir(exist_ok=True)          # (a build that escapes the output directory may have deleted it)
             (proj / "main.jmc").write_text(b["src"])
             hj = proj / "main.hjmc"
             if b.get("header") is not None:
-                hj.write_text(b["header"])
+                hj.write_text(b["header"].replace("{OUTSIDE}", str(outside)))
             elif hj.exists():
                 hj.unlink()
             for rel in b.get("remove") or []:
@@ -332,6 +336,7 @@ def run_job(job):
                                 output=(proj / ".." / "out") if job.get("out_dotdot") else out)
             Header().envs = []
             before = snapshot(out)
+            outside_before = snapshot(outside)
             copy_list = None
             STATE.clear()
             STATE["stage"] = "start"
@@ -348,13 +353,19 @@ def run_job(job):
             finally:
                 T.on = False
             after = snapshot(out)
+            outside_after = snapshot(outside)
             facts = {k: v for k, v in STATE.items() if k != "stage"}
             if facts.get("copy"):
                 facts["copy_tree"] = snapshot(Path(facts["copy"]))
             facts["root"] = str(out)
             facts["pack_format"] = b.get("pack_format") or job.get("pack_format", "48")
             res["builds"].append({"before": before, "trace": T.trace, "after": after, "stage": STATE["stage"],
-                                  "exc": exc, "facts": facts, "n_mut": T.n_mut, "n_del": T.n_del})
+                                  "exc": exc, "facts": facts, "n_mut": T.n_mut, "n_del": T.n_del,
+                                  "outside_changed": outside_before != outside_after,
+                                  "outside": [outside_before, outside_after] if outside_before != outside_after else None})
+            if outside_before != outside_after:      # restore, so that later builds of the job are judged on their own
+                shutil.rmtree(outside, ignore_errors=True)
+                make_tree(outside, [["keep.txt", "not yours"], ["pack/data/x/function/a.mcfunction", "say a"]])
     finally:
         T.on = False
         shutil.rmtree(tmp, ignore_errors=True)
